@@ -5,8 +5,10 @@ demonstration fails with it and passes without it), runs the checks against it b
 to /repo and undoing straight afterwards, and stores it under /verif/seeded/<ID>-<i>/."""
 import json, os, shutil, subprocess, sys, time
 pid, i = sys.argv[1], sys.argv[2]
+base = os.environ.get("SEED_BASE", "/tmp/seed")
+tag = os.environ.get("SEED_TAG", "")
 extra = sys.argv[3:]
-src = f"/tmp/seed/{pid}/out"
+src = f"{base}/{pid}/out"
 patch, demo, meta = f"{src}/patch{i}.diff", f"{src}/demo{i}.rs", f"{src}/meta{i}.json"
 scratch = "/tmp/mut"
 def sh(cmd, cwd=None, timeout=3000):
@@ -52,7 +54,7 @@ finally:
 sh("find /verif/replays -name '*.json' -delete")
 res["checks"] = checks
 res["ran"] = ["cargo test --offline --all-features --test demo (scratch, without patch)", "git apply; cargo test --offline (scratch, baseline with patch)", "cargo test --offline --all-features --test demo (scratch, with patch)", "git -C /repo apply; ./check <ID> quick; git -C /repo checkout -- ."]
-dst = f"/verif/seeded/{pid}-{i}"
+dst = f"/verif/seeded/{pid}-{tag}{i}"
 os.makedirs(dst, exist_ok=True)
 shutil.copy(patch, f"{dst}/patch.diff"); shutil.copy(demo, f"{dst}/demo.rs")
 res["confirmed"] = res["demo_without_patch"] == "pass" and res["baseline_with_patch"] == "pass" and res["demo_with_patch"] == "fail"
